@@ -32,7 +32,7 @@ def cases(tier, rng, run):
             # plain (un-annotated) fields in any position, the first one included
             for _ in range(rng.randint(1, 2)):
                 pos = rng.randint(0, len(c.params))
-                c.params.insert(pos, gen_ctx.Param(f"k{len(c.params)}", [gen_ctx.Slot(None, None, False, ("X",))], False))
+                c.params.insert(pos, gen_ctx.Param(f"k{len(c.params)}", [gen_ctx.Slot(None, None, False, ("X",), pspell=rng.choice(["-", "-", "-a", "-u", "-o"]))], False))
         alias = ""
         ann = [p for p in c.params if p.slots[0].cls is not None and p.slots[0].value[0] == "T"]
         if len(ann) >= 2 and rng.random() < 0.35:
@@ -45,7 +45,7 @@ def cases(tier, rng, run):
                 if s_.optional and rng.random() < 0.6:
                     s_.value = ("N",)
             alias = "\tAL"
-        for kind, style in (("func", rng.choice(["pos", "kw"])), ("nt", rng.choice(["pos", "kw", "kwrev"])), ("dc", rng.choice(["pos", "kw", "kwrev", "inherit", "inherit2"])), ("pyd", rng.choice(["kw", "kwrev"]))):
+        for kind, style in (("func", rng.choice(["pos", "kw", "kwrev", "kwrev"])), ("nt", rng.choice(["pos", "kw", "kwrev"])), ("dc", rng.choice(["pos", "kw", "kwrev", "inherit", "inherit2"])), ("pyd", rng.choice(["kw", "kwrev"]))):
             out.append(Case(c.call_line(kind, style) + alias, kind, {"group": gi, "ctx": c}))
     gi = n
     for c in gen_ctx.rebinding_contexts(with_provider=False) + gen_ctx.group_contexts():
